@@ -2,6 +2,7 @@ import ast
 import copy
 import importlib
 import inspect
+import io
 import tokenize
 from collections import defaultdict
 from dataclasses import is_dataclass
@@ -565,7 +566,15 @@ def _realign_indent(s: str) -> str:
     """
     lines = s.split("\n")
     spaces = len(lines[0]) - len(lines[0].lstrip())
-    stripped_lines = [ln[spaces:] for ln in lines]
+    # The continuation lines of a multi-line string literal are part of the string: leave them alone.
+    in_string = set()
+    try:
+        for t in tokenize.generate_tokens(io.StringIO(s).readline):
+            if t.end[0] > t.start[0] and t.type not in (tokenize.NEWLINE, tokenize.NL):
+                in_string.update(range(t.start[0], t.end[0]))
+    except (tokenize.TokenError, IndentationError):
+        pass
+    stripped_lines = [ln if i in in_string else ln[spaces:] for i, ln in enumerate(lines)]
     while len(stripped_lines) > 0 and stripped_lines[-1].strip() == "":
         stripped_lines.pop()
     return "\n".join(stripped_lines)
